@@ -33,14 +33,21 @@ Proof. intros H. destruct r; cbn; auto. apply Fr_trans, H. Qed.
 Lemma Fr_enqueue c d m s : Fr s (enqueue c d m s).
 Proof. unfold enqueue. destruct (buf_at s d); repeat split. Qed.
 
+(* Fr x (f v x) for one setter / emit layer *)
+Ltac layer :=
+  solve [ unfold Fr;
+          cbn [sr hist cur prev red_done filter is_sr emit set_bufs set_sbb set_dq set_sendq set_pend set_cbs set_intr set_inprq
+               set_rcnt set_scnt set_ictr set_ret set_depth set_masks set_flags set_shared set_nbar set_inmain set_oracle set_enq];
+          repeat split; reflexivity ].
 Ltac fr :=
-  first [ assumption
-        | apply Fr_refl
-        | (eapply Fr_trans; [eassumption|]); fr
-        | (eapply Fr_trans; [|apply Fr_enqueue]); fr
-        | solve [unfold Fr; cbn; repeat split; reflexivity]
-        | match goal with |- Fr _ ?x => match x with context [if ?b then _ else _] => destruct b; fr end end
-        | match goal with |- Fr _ ?x => match x with context [match ?y with _ => _ end] => destruct y; fr end end ].
+  match goal with
+  | |- Fr ?a ?a => apply Fr_refl
+  | H : Fr ?a ?b |- Fr ?a ?b => exact H
+  | |- Fr ?a (if ?b then _ else _) => destruct b; fr
+  | |- Fr ?a (match ?y with _ => _ end) => destruct y; fr
+  | |- Fr ?a (enqueue ?c ?d ?m ?x) => apply (Fr_trans a x); [fr|apply Fr_enqueue]
+  | |- Fr ?a (?f ?v ?x) => apply (Fr_trans a x); [fr|layer]
+  end.
 
 Section Barrier.
   Variable c : cfg.
@@ -204,30 +211,35 @@ Section Barrier.
   Lemma W_frame s s' : W s -> Fr s s' -> W s'.
   Proof. unfold W. intros H (A & _). rewrite A. exact H. Qed.
 
+  (* one act of a program, without unfolding it *)
+  Lemma PActs_body fu a s : exists b : res, forall rest, run (S fu) c (PActs (a :: rest)) s = b >>= run fu c (PActs rest).
+  Proof. eexists. intros rest. cbn [run]. reflexivity. Qed.
+  Lemma PActs_bar fu rest s :
+    run (S fu) c (PActs (ABar :: rest)) s =
+    (run fu c PBarrier (emit (NBI (nbar s + 1)) (set_nbar (nbar s + 1) s)) >>= fun s1 =>
+       let s2 := emit (NBO (nbar s + 1)) s1 in Ok (emit (NS 1 (sbb s2) (pend s2) (length (dq s2)) (length (sendq s2))) s2))
+    >>= run fu c (PActs rest).
+  Proof. reflexivity. Qed.
+  Lemma PActs_nil fu s : run (S fu) c (PActs []) s = Ok s.
+  Proof. reflexivity. Qed.
+
   (* a main program (barriers included): outside count reductions the snapshot / result history stays well formed *)
   Theorem main_W : forall fu l s s', W s -> run fu c (PActs l) s = Ok s' -> W s'.
   Proof.
     induction fu as [|fu IH]; [discriminate|]. intros l s s' Hw H.
-    destruct l as [|a rest]; [cbn [run] in H; injection H as <-; exact Hw|].
-    destruct fu as [|fu'].
-    { (* the rest of the program cannot have run *) cbn [run] in H. unfold bind in H.
-      match type of H with match ?x with _ => _ end = _ => destruct x; discriminate end. }
+    destruct l as [|a rest]; [rewrite PActs_nil in H; injection H as <-; exact Hw|].
     destruct (nobar a) eqn:Ea.
     - (* not a barrier: the act leaves the history of reductions alone *)
-      assert (Hs : exists s1, run (S (S fu')) c (PActs [a]) s = Ok s1 /\ run (S fu') c (PActs rest) s1 = Ok s').
-      { cbn [run] in H |- *. unfold bind in H |- *.
-        match type of H with match ?x with _ => _ end = _ => destruct x as [s1| | |] eqn:E; try discriminate end.
-        exists s1. split; [reflexivity|exact H]. }
-      destruct Hs as (s1 & E1 & E2).
-      apply (IH rest s1 s'); [|exact E2].
-      apply (W_frame s s1 Hw). apply (frame_of (S (S fu')) (PActs [a]) s s1); [cbn; rewrite Ea; reflexivity|exact E1].
-    - destruct a; try discriminate.
-      change (run (S (S fu')) c (PActs (ABar :: rest)) s) with
-        ((run (S fu') c PBarrier (emit (NBI (nbar s + 1)) (set_nbar (nbar s + 1) s)) >>= fun s1 =>
-          let s2 := emit (NBO (nbar s + 1)) s1 in Ok (emit (NS 1 (sbb s2) (pend s2) (length (dq s2)) (length (sendq s2))) s2))
-         >>= run (S fu') c (PActs rest)) in H.
-      destruct (run (S fu') c PBarrier (emit (NBI (nbar s + 1)) (set_nbar (nbar s + 1) s))) as [s1| | |] eqn:E1; try discriminate.
-      destruct (barrier_exit (S fu') (emit (NBI (nbar s + 1)) (set_nbar (nbar s + 1) s)) s1 Hw E1) as (_ & W1).
-      cbn [bind] in H. cbv zeta in H. eapply (IH rest); [|exact H]. exact W1.
+      destruct (PActs_body fu a s) as (b & Hb).
+      rewrite (Hb rest) in H.
+      destruct b as [s1| | |] eqn:Eb; cbn [bind] in H; try discriminate.
+      destruct fu as [|fu']; [discriminate|].
+      assert (E1 : run (S (S fu')) c (PActs [a]) s = Ok s1) by (rewrite (Hb []); cbn [bind]; apply PActs_nil).
+      apply (IH rest s1 s'); [|exact H].
+      apply (W_frame s s1 Hw). apply (frame_of (S (S fu')) (PActs [a]) s s1); [cbn [nbp forallb]; rewrite Ea; reflexivity|exact E1].
+    - destruct a; try discriminate. rewrite PActs_bar in H.
+      destruct (run fu c PBarrier (emit (NBI (nbar s + 1)) (set_nbar (nbar s + 1) s))) as [s1| | |] eqn:E1; cbn [bind] in H; try discriminate.
+      destruct (barrier_exit fu (emit (NBI (nbar s + 1)) (set_nbar (nbar s + 1) s)) s1 Hw E1) as (_ & W1).
+      cbv zeta in H. eapply (IH rest); [|exact H]. exact W1.
   Qed.
 End Barrier.
